@@ -6,3 +6,7 @@ claim("C06",
       "property-based model comparison (embedding on an infinite zero plane) plus exhaustive small-scope enumeration",
       "Every generated field pair / collection / (field, target) is compared with a coordinate-set and canvas model of the infinite zero-padded plane: products, merges, reduce (total and pairwise disjointness), insert with four-sided clipping and weights, and all extent queries. The thorough tier enumerates complete small scopes (insert: shapes 1..4 x offsets -7..7 x targets 1..5; products and extent queries: shapes up to 3-4, offsets -4..4).",
       "Embedding rule taken from the property (origin sample at floor(n/2)); one-element fields only in products; bounded shapes/offsets; values at 1e-13 relative.")
+claim("C20",
+      "exhaustive small-scope enumeration (pad/crop, subarray tables) plus property-based index-set oracles and metamorphic symmetry/translation relations",
+      "pad/crop and subarray are enumerated completely for all size pairs 1..9 (2-D and cubes) against an index-set reference; boundary, boundary_slice, slice_offset, centroid and rebin are compared with direct definitions on generated masks; drawn shapes are checked for range, binarity, exact integer translation, half-turn and mirror symmetry; hex_segments for count, area, disjointness and border clearance.",
+      "Binary-shape symmetry ignores samples within 1e-9 of an edge; border clearance is required from pad>=1 (binary) / pad>=2 (antialiased); sizes bounded (<= 64).")
